@@ -266,16 +266,19 @@ async fn one_run(log: &VLog, run: u64, ops: u64) {
             let shown_balances = get_account_balances(fixture.state(), &accts[ai].addr).await.unwrap();
             let costs = tx.total_costs(fixture.state()).await.unwrap_or_default();
             let id = tx.id().to_string();
-            // like the only production caller (CheckTx): a transaction that is currently tracked is not inserted again
-            if matches!(mempool.transaction_status(tx.id()).await, Some(TransactionStatus::Pending | TransactionStatus::Parked)) {
-                log.ev(json!({"kind": "mp_skip", "run": run, "n": op, "id": id, "why": "already tracked (CheckTx returns AlreadyInPending/AlreadyInParked)"}));
-                continue;
+            // through the real CheckTx boundary (status lookup, construction, costs, insert), and - like
+            // `handle_check_tx_request` - a reported removal clears the removal-cache entry
+            let outcome = crate::service::mempool::check_tx(tx.encoded_bytes().clone(), fixture.state(), &mempool, metrics).await;
+            let oc = format!("{outcome:?}");
+            let class = oc.split(|c: char| !c.is_alphanumeric()).next().unwrap_or("").to_string();
+            if class == "RemovedFromMempool" {
+                mempool.remove_from_removal_cache(tx.id()).await;
             }
-            let res = mempool.insert(tx.clone(), shown_nonce, &shown_balances, costs.clone()).await;
-            let result = match &res {
-                Ok(InsertionStatus::AddedToPending) => "pending".to_string(),
-                Ok(InsertionStatus::AddedToParked) => "parked".to_string(),
-                Err(e) => format!("err:{e:?}"),
+            let res: Result<(), ()> = if class == "AddedToPending" || class == "AddedToParked" { Ok(()) } else { Err(()) };
+            let result = match class.as_str() {
+                "AddedToPending" => "pending".to_string(),
+                "AddedToParked" => "parked".to_string(),
+                other => format!("err:{other}:{}", oc.chars().take(100).collect::<String>()),
             };
             if res.is_ok() {
                 if !known.contains_key(&id) {
